@@ -54,7 +54,10 @@ def run(chk):
         tid += 1
     sw, res = chk.generate(exprgen.c05_task, tasks)
     chk.extra['renderings_judged'] = sum(r['events'] for r in res)
+    sh_stream = common.stage_histories(chk, ntraces=32 if q else 1500, steps=10 if q else 40,
+                                       nvars_choices=[3, 4, 4], profile='stream', tag='st')
     chk.validate('TraceSweep', 'TraceSweep.cfg', sw)
+    chk.validate('TraceBDD', 'TraceBDD.cfg', sh_stream)
     common.sweep_canary(chk, sw[0], 'row.expr', 'expr.meaning')
     chk.assumptions = [
         'TLC + Json reader; adapter',
